@@ -253,8 +253,23 @@ def build_object(ws, spec, name, parent=None):
             u_cell_size=float(spec["du"]), v_cell_size=float(spec["dv"]),
             rotation=float(spec["rot"]), dip=float(spec["dip"]),
         )
-        obj = objects.Grid2D.create(ws, **kwargs)
-        model.coords = coords_list(obj.centroids)
+        regeom = spec.get("regeom")
+        if regeom:
+            # created with another rotation / dip, used once, then given the final geometry through the setters; the
+            # reference centres are those of a twin created with the final geometry (removed again)
+            obj = objects.Grid2D.create(ws, **{**kwargs, "rotation": float(regeom["rot"]), "dip": float(regeom["dip"])})
+            _ = obj.centroids
+            first, second = ("rotation", "dip") if not regeom.get("order") else ("dip", "rotation")
+            setattr(obj, first, kwargs[first])
+            _ = obj.centroids  # the centres are in use between the two assignments
+            setattr(obj, second, kwargs[second])
+            twin = objects.Grid2D.create(ws, **{**kwargs, "name": name + "_twin"})
+            model.coords = coords_list(twin.centroids)
+            ws.remove_entity(twin)
+            del twin
+        else:
+            obj = objects.Grid2D.create(ws, **kwargs)
+            model.coords = coords_list(obj.centroids)
         model.grid = {"nu": int(spec["nu"]), "nv": int(spec["nv"])}
     elif cls == "BlockModel":
         def delim(steps, sign):
